@@ -624,7 +624,8 @@ func (app *App) handleTrustedProxy(ipAddress string) {
 		if ip == nil {
 			log.Warnf("IP address %q could not be parsed", ipAddress)
 		} else {
-			app.config.TrustProxyConfig.ips[ipAddress] = struct{}{}
+			// key by the canonical form: lookups use net.IP.String() of the peer address
+			app.config.TrustProxyConfig.ips[ip.String()] = struct{}{}
 		}
 	}
 }
